@@ -131,11 +131,12 @@ def write_evidence(ctx: Ctx, rep: Report, level: str, n_unlisted: int, n_known: 
         "transitions": max(rep.transitions, 0),
         "traces_validated_against_impl": rep.traces,
         "samples": rep.samples[:6] if rep.samples else ["(no sample recorded)"],
-        "evaluations": max(rep.evaluations, rep.traces, 1),
-        "distinct_nontrivial": max(2, rep.traces if rep.traces else rep.states),
-        "rule": "states/transitions: summed over the TLC runs listed in 'parts'; traces: behaviours of the real lerax "
-                "code validated by TLC against the specification (C2S) or TLC behaviours / cases replayed into the "
-                "real code (S2C); evaluations: executions of real lerax entry points",
+        "implementation_executions": rep.evaluations,
+        "rule": "states / transitions: distinct states and states generated, summed over the TLC runs listed in 'parts' (exhaustive "
+                "model checking of the specification modules plus the trace-validation runs); traces_validated_against_impl: "
+                "behaviours recorded from the real lerax code and validated by TLC against the specification (C2S), or cases / "
+                "TLC-generated behaviours executed on the real code and judged against the specification (S2C); "
+                "implementation_executions: calls of real lerax entry points (steps, rows, cases) made by this run",
         "exhaustive": rep.exhaustive,
         "parts": rep.parts,
         "undecided_clauses": rep.undecided,
